@@ -65,6 +65,24 @@ def replay_row(table, sid, payload, first, clause):
     out = {"raised": None if raised is None else f"{type(raised).__name__}: {raised}", "value": repr(v)[:200]}
     if clause.startswith("C11"):
         out["violates"] = raised is not None and not isinstance(raised, ValueError)
+        if not out["violates"]:
+            # the refutation may rest on an uninterpreted float operation: try the special bit patterns at the row
+            p = (s.offset - first) * 2 if kind == "modbus" else s.offset
+            base = bytearray(payload) + bytearray(max(0, p + 16 - len(payload)))
+            for pat in (b"\x7f\x80\x00\x00", b"\xff\x80\x00\x00", b"\x7f\xc0\x00\x00", b"\xff" * 8, b"\x80" + b"\x00" * 7,
+                        b"\x7f" + b"\xff" * 7):
+                if p < 0:
+                    break
+                b2 = bytearray(base)
+                b2[p:p + len(pat)] = pat
+                try:
+                    s.read(make_response(bytes(b2), kind, first))
+                except ValueError:
+                    continue
+                except Exception as e:      # noqa
+                    out.update(violates=True, raised=f"{type(e).__name__}: {e}", payload=bytes(b2).hex(),
+                               found_by="special bit patterns at the row's registers")
+                    break
         return out
     if clause.startswith("C20_F1"):
         changed = []
